@@ -62,13 +62,14 @@ func sRun(c *fw.Ctx) {
 		}
 		jobs = sel
 	}
-	b := sBounds(c.Thorough())
-	if v := os.Getenv("C20_BOUND"); v != "" {
-		fmt.Sscanf(v, "%d,%d", &b[0], &b[vrt.KPreempt])
-	}
 	c.Bound("S_jobs", len(jobs))
-	c.Bound("S_preemptions", b[vrt.KPreempt])
-	c.Bound("S_total_deviations", b[0])
+	maxB := 0
+	for _, j := range jobs {
+		if j.Bound > maxB {
+			maxB = j.Bound
+		}
+	}
+	c.Bound("S_preemptions_max", maxB)
 	for _, j := range jobs {
 		if !c.Mine() {
 			continue
@@ -82,6 +83,7 @@ func sRun(c *fw.Ctx) {
 			return
 		}
 		states := vrt.NewStateSet()
+		b := j.bounds()
 		vrt.Contentions = 0
 		var overlap, early int64
 		st := dfsExplore(b, j.Part, j.Parts, func(r *dfsRun) bool {
